@@ -46,10 +46,11 @@ use crate::{
 };
 
 pub fn scenarios() -> Vec<&'static dyn Scenario> {
-    vec![&HybridScenario { tampered: false }, &HybridScenario { tampered: true }]
+    vec![&HybridScenario { tampered: false, deep: false }, &HybridScenario { tampered: true, deep: false }, &HybridScenario { tampered: false, deep: true }]
 }
 
 pub struct HybridScenario {
+    pub deep: bool,
     pub tampered: bool,
 }
 
@@ -78,11 +79,39 @@ pub fn reference(reports: &[Report], bk_bits: u32, v_bits: u32, hv_bits: u32) ->
 
 impl Scenario for HybridScenario {
     fn name(&self) -> &'static str {
-        if self.tampered { "c02_tamper" } else { "c01_hybrid" }
+        if self.deep { "c01_deep" } else if self.tampered { "c02_tamper" } else { "c01_hybrid" }
     }
 
     fn generate(&self, seed: u64, tier: Tier) -> Value {
-        let mut r = Rng::sub(seed, if self.tampered { 2_01 } else { 1_01 });
+        let mut r = Rng::sub(seed, if self.deep { 1_02 } else if self.tampered { 2_01 } else { 1_01 });
+        if self.deep {
+            // one shard, 65..90 matched pairs on ONE bucket: the bucket's column needs a third layer of the aggregation tree
+            // (proof chunks of 8 rows at 256 buckets x 3-bit values), plus a few pairs elsewhere
+            let inst = if r.chance(1, 2) { "prod" } else { "small" };
+            let hot = r.below(256) as u32;
+            let mut reports: Vec<Report> = Vec::new();
+            let mut key = 1u64 + (r.next_u64() >> 40);
+            for _ in 0..r.range(65, 90) {
+                key += 1 + r.below(5) as u64;
+                reports.push((false, key, hot));
+                reports.push((true, key, r.below(8) as u32));
+            }
+            for _ in 0..r.range(0, 6) {
+                key += 1 + r.below(5) as u64;
+                reports.push((false, key, r.below(256) as u32));
+                reports.push((true, key, r.below(8) as u32));
+            }
+            r.shuffle(&mut reports);
+            let n = reports.len();
+            let mut knobs = draw_knobs(&mut r);
+            knobs["active"] = json!(r.pick(&[8usize, 16, 32]));
+            let mut p = json!({"shards": 1, "inst": inst, "reports": reports.iter().map(|x| json!([x.0, x.1, x.2])).collect::<Vec<_>>(),
+                "assign": vec![0usize; n], "malicious": r.chance(1, 2), "padding": "none", "share_seed": r.next_u64() >> 12, "knobs": knobs, "dense": true});
+            p["sched"] = SchedSpec::draw(&mut r, 60_000 + n as u64 * 8000, 60_000_000);
+            p["sched"]["stack"] = json!(0x40000);
+            let _ = tier;
+            return p;
+        }
         let shards = if tier == Tier::Quick { r.pick(&[1usize, 1, 2, 2, 2, 2, 3, 3, 3, 3, 3, 5]) } else { r.pick(&[1usize, 2, 2, 3, 3, 5]) };
         let inst = if r.chance(1, 2) { "prod" } else { "small" }; // (BA8,BA3,BA32,256) | (BA8,BA3,BA8,256): 8-bit buckets saturate at 255
         let (bk_bits, _hv_bits) = if inst == "prod" { (8u32, 32u32) } else { (8, 8) };
@@ -365,6 +394,12 @@ fn judge(p: &Value, shards: usize, buckets: usize, reports: &[Report], assign: &
         res.probe("saturated_buckets", want.iter().filter(|v| **v == (1u128 << if ps(p, "inst") == "small" { 8 } else { 32 }) - 1).count() as u64);
         res.probe("padding_runs", u64::from(ps(p, "padding") != "none"));
         res.probe("malicious_runs", u64::from(pb(p, "malicious")));
+        // rows of the fullest bucket: > 64 means a third aggregation layer on a shard that holds them all
+        let fullest = { let mut c = BTreeMap::new(); let mut by_key: BTreeMap<u64, Vec<&Report>> = BTreeMap::new();
+            for x in reports.iter() { by_key.entry(x.1).or_default().push(x); }
+            for (_k, rs) in by_key { if rs.len() == 2 { *c.entry(rs.iter().map(|x| if x.0 { 0 } else { x.2 as usize }).sum::<usize>() % 256).or_insert(0usize) += 1; } }
+            c.values().copied().max().unwrap_or(0) };
+        res.probe("third_aggregation_layer", u64::from(pu(p, "shards") == 1 && fullest > 64));
         return res;
     }
     // ---------- tampered run ----------
